@@ -425,6 +425,14 @@ class Flow:
                                        and (w.end_lineno, w.end_col_offset) <= (sub.lineno, sub.col_offset)]
                             if earlier:
                                 continue
+                            # a if (x := f()) > 0 else x: the test of a conditional expression is evaluated before its arms
+                            in_arm = False
+                            for ie in iter_scope(part):
+                                if isinstance(ie, ast.IfExp) and any(w is sub for arm in (ie.body, ie.orelse) for w in ast.walk(arm)) and \
+                                        any(isinstance(w, ast.NamedExpr) and isinstance(w.target, ast.Name) and w.target.id == sub.id for w in ast.walk(ie.test)):
+                                    in_arm = True
+                            if in_arm:
+                                continue
                             out.append((sub.id, sub, n.id))
         return out
 
@@ -539,7 +547,10 @@ class Flow:
                     if t == var:
                         return item
                     if isinstance(t, tuple):
-                        return tuple(subst(x) for x in t)
+                        new = tuple(subst(x) for x in t)
+                        if new and new[0] == "sub" and len(new) == 3 and isinstance(new[1], tuple) and isinstance(new[2], tuple):
+                            return self.subscript(new[1], new[2])      # (a, b, c)[2] folds to c
+                        return new
                     return t
                 return subst(base[3])
         # the i-th component of an element of a comprehension / generator that yields tuple literals
@@ -755,6 +766,14 @@ class Flow:
                         recv = ("call", None, ("ext", "re.compile"), tuple(const(a.value) for a in cv.args), ())
                 if recv[0] == "call" and recv[2] == ("ext", "re.compile") and len(recv[3]) == 1 and not recv[4]:
                     return ("call", self._site(e), ("ext", "re." + f[2]), (recv[3][0],) + args, kwargs)
+            # tuple(f(x) for x in (a, b)) is (f(a), f(b)): a comprehension over a literal sequence written out
+            if f in (("builtin", "tuple"), ("builtin", "list")) and len(args) == 1 and not kwargs and args[0][0] == "comp" and args[0][1] in ("gen", "list") and \
+                    len(args[0][4]) == 1 and not args[0][4][0][2]:
+                var = args[0][4][0][1]
+                coll = var[2] if var[0] == "iter" else None
+                if coll is not None and coll[0] in ("tuple", "list") and 0 < len(coll[1]) <= 4 and not any(x[0] == "star" for x in coll[1]):
+                    elts = tuple(self.subscript(args[0], const(i)) for i in range(len(coll[1])))
+                    return ("tuple" if f[1] == "tuple" else "list", elts)
             return ("call", self._site(e), f, args, kwargs)
         if isinstance(e, ast.Starred):
             return ("star", c(e.value))
